@@ -1081,6 +1081,15 @@ pub fn run(opts: &Opts) {
         _ => panic!("C04: unknown stream {stream}"),
     };
     if let Some(rp) = &opts.replay {
+        // corpus files of every stream are offered to every stream: skip the ones of other streams
+        let txt = std::fs::read_to_string(rp).expect("read replay");
+        if let Some(h) = txt.lines().find(|l| l.starts_with("# property ")) {
+            let want = h.split(' ').nth(4).unwrap_or("");
+            if !want.is_empty() && want != stream {
+                out.finish("replay (file belongs to another stream: skipped)");
+                return;
+            }
+        }
         let lines = read_replay_ops(rp);
         let mut cur: Vec<String> = vec![];
         let mut label = String::from("replay");
